@@ -937,6 +937,15 @@ func (env *specEnv) evalCall(n *ast.CallExpr) Value {
 			return c.Quant("forall", bound, c.Implies(c.And(guards...), body), autoPatterns(body, bound))
 		}
 		return c.Quant("exists", bound, c.And(c.And(guards...), body), nil)
+	case "safe_":
+		// the string is safe to place in generated HTML: a literal of the
+		// program, the result of an escaping function (by contract), or a
+		// concatenation of safe strings
+		st, ok := env.eval(n.Args[0]).(*Term)
+		if !ok {
+			return PoisonV{"safe_ argument"}
+		}
+		return e.safeOf(st, 0)
 	case "closed_":
 		// the channel has been closed (ghost bit maintained by close())
 		ch, ok := env.eval(n.Args[0]).(*Term)
@@ -1199,6 +1208,22 @@ func constantInt(tv types.TypeAndValue) (int64, bool) {
 	var k int64
 	_, err := fmt.Sscanf(tv.Value.ExactString(), "%d", &k)
 	return k, err == nil
+}
+
+func (e *Engine) safeOf(t *Term, depth int) *Term {
+	c := e.C
+	if _, ok := e.strLitVals[t]; ok {
+		return c.True()
+	}
+	if depth < 12 {
+		if t.Op == "app" && t.Name == "s.concat" && len(t.Args) == 2 {
+			return c.And(e.safeOf(t.Args[0], depth+1), e.safeOf(t.Args[1], depth+1))
+		}
+		if t.Op == "ite" && len(t.Args) == 3 {
+			return c.Ite(t.Args[0], e.safeOf(t.Args[1], depth+1), e.safeOf(t.Args[2], depth+1))
+		}
+	}
+	return c.App("s.safe", Bool, t)
 }
 
 // opaqueHere: the package of the function under verification declares the
